@@ -5,6 +5,10 @@ HERE = os.path.dirname(os.path.dirname(os.path.abspath(__file__)))
 ALL = ["C%02d" % i for i in range(1, 21)]
 # id -> (technique, level text, level note, design ref)
 CHECKS = {
+ "C08": ("exhaustive single-field fault enumeration on typed field sequences of valid sessions (every boundary value at every protocol field, every known option on every option line, truncation at every byte offset) against a long-lived daemon and against the library client, each in journalled worker processes; a canonical valid session after every hostile one",
+         "6 daemon-session shapes x every field x its type's boundary set (ints, flag bits, names/rules/link targets with inconsistent and negative lengths, greeting/module/argument lines incl. every option the parser's help texts mention and the exit-prone ones) x truncation at every offset (~7.5k hostile sessions quick; thorough adds byte substitutions at every offset and adjacent-field pairs), and ~2.5k hostile-server streams against the client (file-list and response fields, payload truncations, malformed frame headers): the worker process must survive and the same daemon must still serve the canonical pull correctly",
+         "count-like fields < 2^20 unless negative, peers close their connection, stalled sessions are abandoned after 5 s without verdict (the guarantee excludes stalls), out-of-memory is inconclusive; SSH exec lines are C20's subject",
+         "DESIGN.md §5 C08"),
  "C17": ("bounded-exhaustive enumeration of re-framings of a protocol-conforming server's payload against the real client (forced boundary, uniform size, info/empty/error frames at every payload offset), reference decoding of every frame recorded from the real server, and scheduler-controlled exploration of the error-frame/first-error-wins race",
          "listing-only and small-tree sessions re-framed with a boundary at every payload offset, every uniform frame size, 1/100/1000 info frames, empty data frames and an error frame at every offset; a 600 KiB file with frame sizes around the 256 KiB buffer; all frames of 30 real server sessions validated and decoded; error frame + server exit explored with <=1 schedule deviation at 5 capacity pairs",
          "payload producer is the reference sender; frames of a live server cannot be merged across its wait points; two known findings (frames > 256 KiB rejected, message lost when a write failure wins the race)",
